@@ -481,6 +481,20 @@ def install2(T):
     Tensor.narrow_copy = lambda s_, dim, start, length: s_.narrow(dim, start, length).clone()
     T.narrow_copy = lambda t, dim, start, length: t.narrow(dim, start, length).clone()
 
+    # ---- as_strided: a view of the underlying storage with explicit sizes / strides (in elements) and an ABSOLUTE storage offset
+    def as_strided(t, size, stride, storage_offset=None):
+        base = T._base_of(t.a)
+        flat = base.reshape(-1) if base.flags["C_CONTIGUOUS"] else None
+        if flat is None:
+            raise HarnessError("as_strided on a non-contiguous storage")
+        off = t.storage_offset() if storage_offset is None else builtins.int(storage_offset)
+        item = flat.strides[0]
+        v = np.lib.stride_tricks.as_strided(flat[off:], shape=tuple(builtins.int(x) for x in size), strides=tuple(builtins.int(x) * item for x in stride), writeable=True)
+        return t._alias(v)
+
+    Tensor.as_strided = as_strided
+    T.as_strided = as_strided
+
     # ---- axis shuffles (views, as in torch)
     def movedim(t, source, destination):
         return t._alias(np.moveaxis(t.a, source, destination))
